@@ -888,8 +888,11 @@ let main_kvsconc file =
   let budget = 400000 in
   let take8 l = take 8 l in
   (* the model state restricted to what is observed: key -> first 8 bytes *)
+  (* states already shown to lead nowhere: (set of linearized operations, observed model state) *)
+  let dead = Hashtbl.create 4096 in
+  let key_of st donev = (String.init n (fun i -> if donev.(i) then '1' else '0'), List.sort compare st) in
   let rec search (st : (n * byte0 list) list) donev k =
-    if !found || !nodes > budget then () else begin
+    if !found || !nodes > budget || Hashtbl.mem dead (key_of st donev) then () else begin
       incr nodes;
       if k = n then found := true else begin
         let minret = ref max_int in
@@ -902,7 +905,8 @@ let main_kvsconc file =
                 | _ -> false, st in
               if ok then (donev.(i) <- true; search st' donev (k + 1); donev.(i) <- false)
               else if k >= !deepest then deepest := k
-            end) ops
+            end) ops;
+        if not !found && !nodes <= budget then Hashtbl.replace dead (key_of st donev) ()
       end
     end in
   search [] (Array.make n false) 0;
@@ -956,8 +960,10 @@ let main_simpleconc file =
   let n = Array.length ops in
   let nodes = ref 0 and found = ref false and deepest = ref 0 and stuck = ref "" in
   let budget = 400000 in
+  let dead = Hashtbl.create 4096 in
+  let key_of s donev = (String.init n (fun i -> if donev.(i) then '1' else '0'), s) in
   let rec search s donev k =
-    if !found || !nodes > budget then () else begin
+    if !found || !nodes > budget || Hashtbl.mem dead (key_of s donev) then () else begin
       incr nodes;
       if k = n then found := true else begin
         let minret = ref max_int in
@@ -967,7 +973,8 @@ let main_simpleconc file =
               let (s', rs) = sstep s c in
               if rs = obs then (donev.(i) <- true; search s' donev (k + 1); donev.(i) <- false)
               else if k >= !deepest then (deepest := k; stuck := Printf.sprintf "client=%d:%s" cl proc)
-            end) ops
+            end) ops;
+        if not !found && !nodes <= budget then Hashtbl.replace dead (key_of s donev) ()
       end
     end in
   if !npanic > 0 then Printf.printf "N crash BAD panics=%d\n" !npanic;
@@ -1152,8 +1159,133 @@ let main_conc file =
   end;
   Printf.printf "DONE ops=%d txns=%d\n" n !ntxn
 
+
+(* dirmodel: dir.LookupName / AddName / RemName and the name cache, driven directly by the harness, against the
+   extracted DM (Model/DirModel.v): result, slots, cache contents and Lastoff after every operation *)
+let main_dirmodel file =
+  let ic = open_in file in
+  let rec nat_of_int k = if k <= 0 then O else S (nat_of_int (k - 1)) in
+  let rec int_of_nat = function O -> 0 | S k -> 1 + int_of_nat k in
+  let hex_of (l : byte0 list) = String.concat "" (List.map (fun b -> Printf.sprintf "%02x" (int_of_n (Extracted.to_N b))) l) in
+  let parse_slots toks =
+    List.map (fun t -> if t = "-" then None else
+                 match split_on ':' t with
+                 | [nm; i] -> Some (bytes_of_hex nm, n_of_string i)
+                 | _ -> failwith ("slot " ^ t)) toks in
+  let show_slots (l : (name * n) option list) =
+    String.concat " " (List.map (function None -> "-" | Some (nm, i) -> hex_of nm ^ ":" ^ string_of_int (int_of_n i)) l) in
+  let show_cache (st : dstate) =
+    match dm_cache_list st with
+    | None -> "nocache"
+    | Some (last, l) ->
+      let ents = List.map snd (List.sort compare (List.map (fun (nm, (i, k)) -> (hex_of nm, Printf.sprintf "%s:%d:%d" (hex_of nm) (int_of_n i) (128 * int_of_nat k))) l)) in
+      Printf.sprintf "%d %d%s" (128 * int_of_nat last) (List.length ents) (String.concat "" (List.map (fun e -> " " ^ e) ents)) in
+  let st = ref None and nops = ref 0 and nbad = ref 0 and cur = ref "" and expect_r = ref "" and started = ref false in
+  let pend_slots = ref "" in
+  let bad what = incr nbad; if !nbad <= 10 then Printf.printf "D %d BAD %s op=%s\n" !nops what (String.sub !cur 0 (min 60 (String.length !cur))) in
+  (try while true do
+      let line = input_line ic in
+      match split_on ' ' line with
+      | "DI" :: _ -> ()
+      | "DX" :: r -> bad ("harness:" ^ String.concat " " r)
+      | "DO" :: rest ->
+        incr nops; cur := String.concat " " rest;
+        (match !st, rest with
+         | None, _ -> expect_r := "?"
+         | Some s, ["lookup"; nm] ->
+           let (s', r) = dm_lookup s (bytes_of_hex nm) in
+           st := Some s';
+           expect_r := (match r with None -> "0 0" | Some (i, k) -> Printf.sprintf "%d %d" (int_of_n i) (128 * int_of_nat k))
+         | Some s, ["addx"; nm; i] ->
+           let (s', r) = dm_addx s (n_of_string i) (bytes_of_hex nm) true in
+           st := Some s';
+           expect_r := (match r with None -> "exist" | Some true -> "true" | Some false -> "false")
+         | Some s, ["rem"; nm] ->
+           let (s', r) = rem_name s (bytes_of_hex nm) in
+           st := Some s'; expect_r := if r then "true" else "false"
+         | Some s, ["drop"] -> expect_r := "-"       (* the dump that follows is taken before the abort *)
+         | Some s, ["nop"] -> st := Some (drop_cache s); expect_r := "-"
+         | Some _, _ -> bad "unknown-op")
+      | "DR" :: r ->
+        let got = String.concat " " r in
+        if !started && !expect_r <> "?" && got <> !expect_r then bad (Printf.sprintf "result:model=%s impl=%s" !expect_r got)
+      | "DS" :: _ :: toks -> pend_slots := String.concat " " toks
+      | "DC" :: toks ->
+        let impl_cache = String.concat " " toks in
+        (match !st with
+         | None ->
+           (* the first dump is the initial state *)
+           let slots = parse_slots (List.filter (fun x -> x <> "") (split_on ' ' !pend_slots)) in
+           let cache = match toks with
+             | ["nocache"] -> None
+             | last :: _ :: ents ->
+               Some (nat_of_int (int_of_string last / 128),
+                     List.map (fun e -> match split_on ':' e with
+                         | [nm; i; off] -> (bytes_of_hex nm, (n_of_string i, nat_of_int (int_of_string off / 128)))
+                         | _ -> failwith ("cache " ^ e)) ents)
+             | _ -> None in
+           st := Some (dm_make slots cache); started := true
+         | Some s ->
+           let ms = show_slots s.d_slots in
+           if ms <> !pend_slots then bad (Printf.sprintf "slots:model=[%s] impl=[%s]" ms !pend_slots);
+           let mc = show_cache s in
+           if mc <> impl_cache then bad (Printf.sprintf "cache:model=[%s] impl=[%s]" mc impl_cache))
+      | _ -> ()
+    done with End_of_file -> ());
+  Printf.printf "DONE ops=%d bad=%d\n" !nops !nbad
+
+
+(* atmodel: alloctxn over the real allocator and bitmap, against the extracted AT (Model/AllocModel.v) *)
+let main_atmodel file =
+  let ic = open_in file in
+  let rec nat_of_int k = if k <= 0 then O else S (nat_of_int (k - 1)) in
+  let rec int_of_nat = function O -> 0 | S k -> 1 + int_of_nat k in
+  let st = ref None and nops = ref 0 and nbad = ref 0 and cur = ref "" in
+  let bad what = incr nbad; if !nbad <= 10 then Printf.printf "A %d BAD %s op=%s\n" !nops what !cur in
+  (try while true do
+      let line = input_line ic in
+      match split_on ' ' line with
+      | "AX" :: r -> bad ("harness:" ^ String.concat " " r)
+      | "AO" :: rest ->
+        incr nops; cur := String.concat " " rest;
+        (match !st with
+         | None -> ()
+         | Some s ->
+           let o = match rest with
+             | ["begin"; t] -> Some (ABegin (nat_of_int (int_of_string t)))
+             | ["alloc"; t; n] -> if n = "0" then None else Some (AAlloc (nat_of_int (int_of_string t), n_of_string n))
+             | ["free"; t; n] -> Some (AFree (nat_of_int (int_of_string t), n_of_string n))
+             | ["commit"; t] -> Some (ACommit (nat_of_int (int_of_string t)))
+             | ["abort"; t] -> Some (AAbort (nat_of_int (int_of_string t)))
+             | _ -> None in
+           (match o with
+            | None -> ()
+            | Some o ->
+              (match astep s o with
+               | Some s' -> st := Some s'
+               | None -> bad "guard:the model does not allow this step (e.g. the number handed out is marked in the model's allocator)")))
+      | "AS" :: mem :: _ :: nums ->
+        let nums = List.filter (fun x -> x <> "") nums in
+        (match !st with
+         | None -> st := Some (a_init_list (List.map n_of_string nums))
+         | Some s ->
+           let md = List.sort compare (List.map int_of_n (a_disk_list s)) in
+           let id = List.map int_of_string nums in
+           if md <> id then begin
+             let diff a b = List.filter (fun x -> not (List.mem x b)) a in
+             bad (Printf.sprintf "disk:only-in-model=[%s] only-on-disk=[%s]"
+                    (String.concat "," (List.map string_of_int (take 6 (diff md id)))) (String.concat "," (List.map string_of_int (take 6 (diff id md)))))
+           end;
+           let mm = int_of_nat (a_mem_size s) in
+           if mm <> int_of_string mem then bad (Printf.sprintf "mem:model-marks=%d allocator-marks=%s" mm mem))
+      | _ -> ()
+    done with End_of_file -> ());
+  Printf.printf "DONE ops=%d bad=%d\n" !nops !nbad
+
 let () =
   match Array.to_list Sys.argv with
+  | _ :: "atmodel" :: file :: _ -> main_atmodel file
+  | _ :: "dirmodel" :: file :: _ -> main_dirmodel file
   | _ :: "c15" :: file :: rest -> main_c15 file (rest = ["full"])
   | _ :: "crash" :: file :: _ -> main_crash file
   | _ :: "conc" :: file :: _ -> main_conc file
